@@ -39,6 +39,19 @@ def collection(kind, prov):
             return Object.new({"a": inp(SecretInteger)})
     if prov == "direct":
         return base()
+    if prov in ("new", "new-public", "new-literal"):
+        if kind != "Array":
+            return None
+        if prov == "new":
+            return Array.new(inp(SecretInteger), inp(SecretInteger))
+        if prov == "new-public":
+            return Array.new(inp(PublicInteger), inp(PublicInteger))
+        return Array.new(Integer(1), Integer(2))
+    if prov == "map":
+        if kind != "Array":
+            return None
+        f = nada_fn(lambda e: e + e, args_ty={"e": SecretInteger}, return_ty=SecretInteger)
+        return Array(inp(SecretInteger), size=3).map(f)
     if prov == "ntuple":
         if kind == "Tuple":
             return None
@@ -85,6 +98,9 @@ def constructs():
         ("RMember", "==-as-condition", lambda x, y: 1 if x == y else 2), ("RMember", "!=-as-condition", lambda x, y: 1 if x != y else 2),
         ("RIter", "for", lambda x, y: [e for e in x]), ("RIter", "list()", lambda x, y: list(x)),
         ("RIter", "unpack", lambda x, y: (lambda *a: a)(*x)), ("RIter", "iter()", lambda x, y: iter(x)),
+        ("RIter", "sum", lambda x, y: sum(x)), ("RIter", "enumerate", lambda x, y: list(enumerate(x))),
+        ("RIter", "zip", lambda x, y: list(zip(x, y))), ("RIter", "contains", lambda x, y: y in x),
+        ("RIter", "max-key", lambda x, y: max(x, key=id)), ("RIter", "tuple()", lambda x, y: tuple(x)),
     ]
 
 
@@ -117,10 +133,12 @@ for route, name, fn in constructs():
             cells.append([cls.__name__, route, name, prov, outcome(fn, scalar(cls, prov), scalar(cls, prov))])
         cells.append([cls.__name__, route, name, "param", in_function(cls, fn)])
     for kind in ("Array", "Tuple", "NTuple", "Object"):
-        for prov in ("direct", "ntuple", "object", "opres"):
+        for prov in ("direct", "ntuple", "object", "opres", "new", "new-public", "new-literal", "map"):
             x, y = collection(kind, prov), collection(kind, prov)
             if x is None:
                 continue
+            if kind != "Array" and name in ("sum", "enumerate", "zip", "contains", "max-key", "tuple()"):
+                continue      # iterating a tuple / object is not constrained by C07 (elements are operations, not secrets' values)
             cells.append([kind, route, name, prov, outcome(fn, x, y)])
 # comparisons / membership against plain Python values, both operand orders
 PLAIN = {"int": 0, "int1": 1, "bool": True, "none": None, "str": "a", "float": 0.5}
